@@ -285,9 +285,11 @@ theorem frame_asElem_step (W : World) (f : Nat) (ih : FrameAt W f) :
   split at h
   · exact ih.for_ _ _ _ _ _ _ _ _ hs h
   · split at h
-    · have f0 := setTemplateBound_frame W.P attrs st.stack hs
-      have := ih.list _ _ _ _ _ (f0.nonempty hs) h
-      exact (St.frame_of_stack f0).trans this
+    · split at h
+      · exact ih.tmpl _ _ _ _ _ _ hs h
+      · have f0 := setTemplateBound_frame W.P attrs st.stack hs
+        have := ih.list _ _ _ _ _ (f0.nonempty hs) h
+        exact (St.frame_of_stack f0).trans this
     · exact ih.plain _ _ _ _ _ _ _ hs h
 
 theorem frame_vfor_step (W : World) (f : Nat) (ih : FrameAt W f) :
